@@ -70,6 +70,9 @@ pub fn catalogue() -> Vec<Entry> {
         Cell<u8>, Cell<i64>, Cell<(u8, bool)>, RefCell<String>, RefCell<Vec<u8>>, Cow<'static, u32>,
         Cow<'static, String>, Box<Box<u8>>, Rc<RefCell<Vec<Option<u8>>>>, Vec<Box<u16>>, Vec<Rc<String>>,
         Option<Rc<[u8]>>, Vec<Cell<u8>>,
+        // zero-sized element collections nested inside usable types
+        Option<Vec<()>>, (u8, Vec<()>), Vec<Vec<()>>, [Vec<()>; 2], Box<Vec<()>>, Result<Vec<()>, u8>, Vec<((), u8)>,
+        Vec<Option<()>>, BTreeMap<u8, ()>, [(); 0], ((), ()), Option<[u8; 0]>, Vec<([u8; 0], u8)>,
         // nesting
         Vec<BTreeMap<u8, Vec<String>>>, BTreeMap<u8, Vec<Option<(u16, String)>>>, Option<Vec<Option<Vec<u8>>>>,
         Vec<HS<u8>>, HM<u8, HM<u8, u8>>, (Vec<u8>, [u8; 2], Option<(String, Vec<u16>)>), Vec<Vec<Vec<u8>>>,
@@ -84,5 +87,85 @@ pub fn catalogue() -> Vec<Entry> {
             bson::oid::ObjectId, Vec<bson::oid::ObjectId>, Option<bson::oid::ObjectId>, (u8, bson::oid::ObjectId),
         );
     }
+    v
+}
+
+/// owned dynamically sized collections over zero-sized element / key types
+pub fn zst_catalogue() -> Vec<Entry> {
+    let mut v: Vec<Entry> = Vec::new();
+    cat!(v;
+        Vec<()>, Vec<[u8; 0]>, Vec<((), ())>, Vec<([(); 0], [(); 0])>, Vec<([(); 0],)>, Vec<PhantomData<u8>>,
+        Vec<core::ops::RangeFull>, Vec<[(); 5]>, Vec<[[(); 2]; 0]>, Vec<Cell<()>>, Vec<((), PhantomData<String>, [u64; 0])>,
+        VecDeque<()>, VecDeque<[u16; 0]>, LinkedList<()>, LinkedList<((), ())>,
+        BTreeSet<()>, BTreeSet<[u8; 0]>, HashSet<()>, HS<()>, HSC<((), ())>,
+        BTreeMap<(), u8>, BTreeMap<[u8; 0], String>, HashMap<(), u8>, HM<(), Vec<u8>>, HMC<((), ()), u8>,
+        indexmap::IndexSet<()>, indexmap::IndexSet<[u8; 0]>, indexmap::IndexMap<(), u8>,
+    );
+    v
+}
+
+// ---------------------------------------------------------------- types that have a schema
+
+use crate::gen::Gen;
+use crate::obs::Sink;
+use crate::ops::Budget;
+use crate::schema_ops::{schema_ty, with_schema_pair};
+
+pub type SRun = fn(&mut Gen, &Budget, &mut Sink);
+
+macro_rules! scat {
+    ($v:ident; $($t:ty),* $(,)?) => { $( $v.push((stringify!($t), schema_ty::<$t> as SRun)); )* };
+}
+
+pub fn schema_catalogue() -> Vec<(&'static str, SRun)> {
+    let mut v: Vec<(&'static str, SRun)> = Vec::new();
+    scat!(v;
+        u8, u16, u32, u64, u128, i8, i16, i32, i64, i128, usize, isize,
+        core::num::NonZeroU8, core::num::NonZeroU16, core::num::NonZeroU32, core::num::NonZeroU64,
+        core::num::NonZeroU128, core::num::NonZeroI8, core::num::NonZeroI16, core::num::NonZeroI32,
+        core::num::NonZeroI64, core::num::NonZeroI128, core::num::NonZeroUsize,
+        f32, f64, bool, (), core::ops::RangeFull, PhantomData<u64>,
+        String, Box<str>, Cow<'static, str>, Rc<str>, ascii::AsciiString, ascii::AsciiChar,
+        Vec<u8>, Vec<u16>, Vec<bool>, Vec<String>, Vec<Vec<u8>>, Vec<Option<u8>>, Vec<(u8, String)>, Vec<[u8; 3]>,
+        VecDeque<u8>, VecDeque<String>, LinkedList<u8>, LinkedList<String>,
+        Box<[u8]>, Box<[String]>, Rc<[u8]>, Cow<'static, [u8]>, Cow<'static, [u64]>,
+        [u8; 0], [u8; 1], [u8; 32], [u16; 0], [u16; 3], [String; 2], [[u8; 2]; 3], [Option<u32>; 4], [(); 3],
+        [Option<u8>; 10], [Result<u8, u16>; 3], [(u8, Option<bool>); 2],
+        BTreeSet<u8>, BTreeSet<String>, BTreeSet<(u8, u8)>, HashSet<u8>, HS<String>, HSC<i32>,
+        BTreeMap<u8, u8>, BTreeMap<String, u64>, BTreeMap<u64, ()>, HashMap<u8, u8>, HM<String, Vec<u8>>, HM<u16, ()>,
+        Option<u8>, Option<String>, Option<Option<u8>>, Option<()>, Option<[u8; 4]>, Option<Box<u32>>,
+        Result<u8, String>, Result<(), ()>, Result<Vec<u8>, u64>, Result<Result<u8, u16>, u32>,
+        (u8,), (u8, u16), (String, u8), (u8, String, bool), (u8, (u8, (u8, u8))), ((), u8, ()),
+        (u8, u16, u8, u16, u8, u16, u8, u16, u8, u16, u8, u16, u8, u16, u8, u16, u8, u16, u8, u16),
+        core::ops::Range<u8>, core::ops::Range<String>, core::ops::RangeFrom<u32>, core::ops::RangeTo<u16>,
+        core::ops::RangeToInclusive<i8>, core::ops::RangeInclusive<u8>, core::ops::RangeInclusive<u64>,
+        Box<u8>, Box<Vec<u8>>, Rc<String>, Arc<Vec<u16>>, Cell<u8>, RefCell<String>, Cow<'static, u32>,
+        Vec<BTreeMap<u8, Vec<String>>>, Option<Vec<Option<Vec<u8>>>>, HM<u8, HM<u8, u8>>, Vec<Vec<Vec<u8>>>,
+        // zero-sized elements in dynamic collections (runtime refuses; validation flags)
+        Vec<()>, Vec<[u8; 0]>, Vec<((), ())>, Vec<([(); 0], [(); 0])>, Vec<([(); 0],)>, Vec<PhantomData<u8>>,
+        Vec<core::ops::RangeFull>, VecDeque<()>, LinkedList<()>, BTreeSet<()>, HashSet<()>, BTreeMap<(), u8>,
+        HashMap<(), u8>, Vec<[(); 5]>, Vec<Vec<()>>, Option<Vec<()>>, [Vec<()>; 2], (u8, Vec<()>),
+    );
+    #[cfg(feature = "io_std")]
+    {
+        use std::net::*;
+        scat!(v; Ipv4Addr, Ipv6Addr, IpAddr, Vec<IpAddr>, (Ipv4Addr, u8), BTreeMap<u8, Ipv6Addr>);
+    }
+    v
+}
+
+pub type PRun = fn(&mut Gen, &mut Sink);
+
+macro_rules! pairs {
+    ($v:ident; [$($t:ty),*] ; $us:tt) => { $( pairs!(@row $v; $t; $us); )* };
+    (@row $v:ident; $t:ty; [$($u:ty),*]) => { $( $v.push(with_schema_pair::<$t, $u> as PRun); )* };
+}
+
+pub fn schema_pairs() -> Vec<PRun> {
+    let mut v: Vec<PRun> = Vec::new();
+    pairs!(v; [u8, i8, u16, String, Vec<u8>, Vec<u16>, [u8; 2], [u8; 3], (u8, u8), Option<u8>, Result<u8, u8>,
+               BTreeMap<u8, u8>, HashMap<u8, u8>, BTreeSet<u8>, VecDeque<u8>, Box<[u8]>, usize, u64, (u8,), Vec<String>];
+               [u8, i8, u16, String, Vec<u8>, Vec<u16>, [u8; 2], [u8; 3], (u8, u8), Option<u8>, Result<u8, u8>,
+               BTreeMap<u8, u8>, HashMap<u8, u8>, BTreeSet<u8>, VecDeque<u8>, Box<[u8]>, usize, u64, (u8,), Vec<String>]);
     v
 }
